@@ -43,6 +43,9 @@ fn usage() -> i32 {
 fn main() {
     let args: Vec<String> = std::env::args().skip(1).collect();
     let code = real_main(&args);
+    if args.first().map(|c| c.starts_with("c14-")).unwrap_or(false) {
+        spec::remove_logo_dir();
+    }
     std::process::exit(code);
 }
 
